@@ -797,7 +797,7 @@ def _subst_ids(n, env):
     if isinstance(n, list):
         return [_subst_ids(x, env) for x in n]
     if isinstance(n, tuple):
-        if len(n) == 2 and n[0] == 'id' and n[1] in env:
+        if len(n) == 2 and n[0] == 'id' and isinstance(n[1], str) and n[1] in env:
             return env[n[1]]
         return tuple(_subst_ids(x, env) for x in n)
     return n
